@@ -196,6 +196,8 @@ def apply_contract(ex, con, args, st, lineno, lib, cls):
     if con.normal_requires is not None:
         s.assume(con.normal_requires(pc))
     res = _build_new_state(con, pc, con.post, lineno)
+    # ghost: the results of the contract calls made so far on this path (for "the value stored is the one just computed")
+    s.ghost.setdefault("call_results", []).append((con.name, res))
     if con.excs:
         from .execute import feasible
         if not feasible(s, ctx):
